@@ -119,6 +119,14 @@ func (k *Keeper) EthereumTx(goCtx context.Context, msg *evmtypes.MsgEthereumTx) 
 	receipt.GasUsed = response.GasUsed
 	receipt.BlockNumber = big.NewInt(ctx.BlockHeight())
 	receipt.TransactionIndex = uint(txIndex)
+	{
+		// log index is not a consensus field so it was lost during marshalling,
+		// restore it: logs are numbered consecutively across the whole block.
+		startLogIndex := k.GetCumulativeLogCountTransient(ctx, true)
+		for i, log := range receipt.Logs {
+			log.Index = uint(startLogIndex) + uint(i)
+		}
+	}
 
 	receiptSdkEvent, err := evmtypes.GetSdkEventForReceipt(
 		receipt, // receipt
